@@ -501,7 +501,9 @@ func (c *context) jsonPBlob(code int, callback string, i interface{}) (err error
 
 func (c *context) json(code int, i interface{}, indent string) error {
 	c.writeContentType(MIMEApplicationJSON)
-	c.response.Status = code
+	if !c.response.Committed {
+		c.response.Status = code
+	}
 	return c.echo.JSONSerializer.Serialize(c, i, indent)
 }
 
